@@ -45,7 +45,9 @@ FMT_SPECS = [None, dict(color='RED'), dict(color='GREEN', bold=True), dict(color
              # an rgb triple as background
              dict(color=None, bg_color=(5, 0, 1)),
              # the same look as an earlier formatter, its effects named in another order
-             dict(color=None, crossed=True, underline=True), dict(bold=True, color='GREEN')]
+             dict(color=None, crossed=True, underline=True), dict(bold=True, color='GREEN'),
+             # effects switched off by name (as a configuration with 'no_bold' does): the look of an earlier formatter
+             dict(color='RED', bold=False), dict(color=None, bold=False, faint=False), dict(color=100, faint=False, blink=False)]
 _FMTS = None
 
 
